@@ -23,13 +23,15 @@ ENCODED = ["twisted.web.http_headers:_sanitizeLinearWhitespace", "twisted.web.ht
            "twisted.web.http:Request.write", "twisted.web.http:Request.finish",
            "twisted.web.http:HTTPChannel.writeHeaders", "twisted.web.http:HTTPChannel.write",
            "twisted.web.http:HTTPChannel.writeSequence", "twisted.web.http:toChunk"]
-BOUNDS = {"quick": {"s": 3, "nm": 2, "hv": 2, "rs": 2, "ck": 1, "ca": 2, "bw": 2},
-          "thorough": {"s": 5, "nm": 3, "hv": 3, "rs": 4, "ck": 2, "ca": 3, "bw": 3}}
+BOUNDS = {"quick": {"s": 3, "nm": 2, "hv": 2, "rs": 3, "ck": 1, "cv": 2, "ca": 1, "bw": 2},
+          "thorough": {"s": 5, "nm": 3, "hv": 3, "rs": 4, "ck": 2, "cv": 2, "ca": 3, "bw": 3}}
 B = {}
 BOUNDS_TEXT = ("_sanitizeLinearWhitespace on every text of <= s bytes; header names of <= nm bytes (bytes or "
                "text, set or add); header values of <= hv characters (bytes 0..255, or text of any code "
-               "point, UTF-8 encoded by the real code); reason phrase of <= rs bytes; cookie key/value of <= "
-               "ck bytes with one attribute (Expires/Domain/Path/Max-Age/Comment) of <= ca bytes, or text; "
+               "point, UTF-8 encoded by the real code); reason phrase of <= rs bytes; cookie key <= ck / value <= "
+               "cv bytes with one attribute (Expires/Domain/Path/Max-Age/Comment) of <= ca bytes; the same as "
+               "text (any code point) with key and value symbolic when there is no attribute and fixed when "
+               "the attribute is symbolic; "
                "<= 2 body writes of <= bw bytes each; HTTP/1.0 and 1.1, GET and HEAD, status 200/204/304/100, "
                "Content-Length set by the application or not")
 OUTSIDE = ["h11 (or any third-party parser) as the oracle: the reference tokenizer is the one in this file",
@@ -560,16 +562,17 @@ ATTR_TEXT = [None, "Expires", "Domain", "Path", "Max-Age", "Comment"]
 
 def resp_cookie(k: str, v: str, a: str, which: int, as_text: bool) -> bool:
     """
-    pre: len(k) <= B['ck'] and len(v) <= B['ck'] and len(a) <= B['ca']
+    pre: len(k) <= B['ck'] and len(v) <= B['cv'] and len(a) <= B['ca']
     pre: no_surrogates(k + v + a) and (as_text or all_latin1(k + v + a))
     pre: 0 <= which < 6
+    pre: not as_text or (which == 0 and len(v) <= 1) or (k == "k" and v == "v")
     post: _
     """
     w = 0
     for i in range(6):
         if which == i:
             w = i
-    kc, vc, ac = chars_of(k, B['ck']), chars_of(v, B['ck']), chars_of(a, B['ca'])
+    kc, vc, ac = chars_of(k, B['ck']), chars_of(v, B['cv']), chars_of(a, B['ca'])
     conv = (lambda cs: text_of(cs)) if as_text else (lambda cs: b(text_of(cs)))
     kw = {}
     if w > 0:
@@ -622,8 +625,11 @@ def _len_shards(var, hi, lo=0):
 HARNESSES = [
     H(sanitize, shards=lambda tier: _len_shards("value", BOUNDS[tier]["s"]), timeout={"quick": 60, "thorough": 900}),
     H(header_name, shards=lambda tier: [("len(name) == %d" % n, "as_text == %s" % x)
-                                        for n in range(BOUNDS[tier]["nm"] + 1) for x in (False, True)],
-      timeout={"quick": 60, "thorough": 900}),
+                                        for n in range(2) for x in (False, True)] +
+                                       [("len(name) == %d" % n, "as_text == %s" % x, "name[0] %s '@'" % op)
+                                        for n in range(2, BOUNDS[tier]["nm"] + 1) for x in (False, True)
+                                        for op in ("<", ">=")],
+      timeout={"quick": 90, "thorough": 1500}),
     H(header_value, shards=lambda tier: [("len(value) == %d" % n, "as_text == %s" % x)
                                          for n in range(BOUNDS[tier]["hv"] + 1) for x in (False, True)],
       timeout={"quick": 60, "thorough": 900}),
@@ -647,27 +653,17 @@ VECTORS = {
                     ("~|", True, True), ("-", False, False)],
     "header_value": [("a\rb", False, False), ("\r\n", False, True), (" \x85", True, False), ("\xe9\n", True, True),
                      ("\U0001F600", True, False), ("\xff\x00", False, False), ("", True, True)],
-    "resp_reason": [("OK", True, False, 0), ("", False, False, 0), ("N", True, True, 1), ("\xffx", True, False, 2),
+    "resp_reason": [("K\r\n", True, False, 0), ("\r\n", True, False, 0), ("a\nb", False, False, 0),
+                    ("\r", True, True, 2), ("\n\r", True, False, 3), ("OK", True, False, 0), ("", False, False, 0), ("N", True, True, 1), ("\xffx", True, False, 2),
                     (" ", False, True, 3)],
     "resp_header": [("a\rb", False, True, 0), ("\r\n", False, False, 0), ("\n", True, True, 1), ("Ā", True, True, 2),
                     ("x:", False, True, 3), ("\x85 ", True, False, 0)],
-    "resp_cookie": [("k", "v", "", 0, False), ("\r", "\n", "x;", 1, False), (";", "=", "\r\n", 2, True),
-                    ("\xe9", "Ā", "/", 3, True), ("k", "", "9\n", 4, False), ("", "v", ";;", 5, False)],
+    "resp_cookie": [("k", "v", "", 0, False), ("\r", "\n", ";", 1, False), (";", "=", "\n", 2, True),
+                    ("\xe9", "Ā", "/", 3, True), ("k", "\r\n", "\r", 4, False), ("", "v;", ";", 5, False)],
     "resp_body": [("ab", "cd", True, False, 0, False), ("ab", "", True, False, 0, True), ("\r\n", "0", True, False, 0, False),
                   ("a", "b", False, False, 0, False), ("a", "b", True, True, 0, False), ("a", "b", True, False, 1, False),
                   ("a", "b", True, False, 2, True), ("", "", True, False, 3, False), ("\xff", "\x00", False, True, 1, True)],
 }
-
-# the reason phrase is written to the wire as given (Request.setResponseCode / HTTPChannel.writeHeaders do
-# not sanitise it): excluded only while KNOWN_FINDINGS.json lists the key as open
-EXCLUDE = {"reason-phrase-crlf": {"resp_reason": "not ('\\r' in reason or '\\n' in reason)"}}
-
-
-def classify(harness_name, args):
-    if harness_name == "resp_reason" and ("\r" in args["reason"] or "\n" in args["reason"]):
-        return "reason-phrase-crlf"
-    return None
-
 
 def selftest():
     import sys
